@@ -728,6 +728,8 @@ def average(a, axis=None, weights=None):
     if weights is None:
         return mean(a, axis)
     v, w = _flat(a), _flat(weights)
+    if len(v) != len(w):
+        raise TypeError('Axis must be specified when shapes of a and weights differ.')
     return core.div(_psum([x * y for x, y in zip(v, w)]), _psum(w))
 
 
@@ -866,6 +868,8 @@ def diff(a, axis=-1):
 def dot(a, b):
     A, Bb = _raw(a), _raw(b)
     if A.ndim == 2 and Bb.ndim == 1:
+        if A.shape[1] != len(Bb):
+            raise ValueError('shapes %s and %s not aligned' % (A.shape, Bb.shape))
         return ndarray(_norm(_list1d([_psum([_scalar(x) * _scalar(y) for x, y in zip(r, Bb)]) for r in A])), _raw=True)
     if A.ndim == 1 and Bb.ndim == 1:
         if len(A) != len(Bb):
@@ -1024,6 +1028,10 @@ def polyfit(x, y, deg, full=False):
         raise NotEncodable('polyfit degree %r' % deg)
     xs, ys = _flat(x), _flat(y)
     n = len(xs)
+    if n == 0:
+        raise TypeError('expected non-empty vector for x')
+    if n != len(ys):
+        raise TypeError('expected x and y to have same length')
     xm, ym = _pmean(xs), _pmean(ys)
     sxx = _psum([(a - xm) * (a - xm) for a in xs])
     sxy = _psum([(a - xm) * (b - ym) for a, b in zip(xs, ys)])
@@ -1042,6 +1050,8 @@ def polyfit(x, y, deg, full=False):
 
 def corrcoef(x, y):
     xs, ys = _flat(x), _flat(y)
+    if len(xs) != len(ys):
+        raise ValueError('all the input array dimensions except for the concatenation axis must match exactly')
     xm, ym = _pmean(xs), _pmean(ys)
     sxx = _psum([(a - xm) * (a - xm) for a in xs])
     syy = _psum([(b - ym) * (b - ym) for b in ys])
